@@ -16,6 +16,15 @@ Each route of the harness is lowered to the bank / hold primitive the Go code re
   qaccept T F       quarantine keeper.go:284 → `SendCoins(quarantine.WithBypass(ctx), fundsHolder, T, record)`
   hold / release    hold keeper `AddHold` / `ReleaseHold`
   commit / pay      exchange `CommitFunds` / `CreatePayment` → `AddHold` (a further hold)
+  pay S c id tgt= tamt=   exchange `CreatePayment` (payment record + `AddHold(source amount)`)
+  payaccept T S id  exchange payments.go:230 `AcceptPayment` → `acceptPaymentOps`
+  payreject T S id / paycancel S id   payments.go:298 / :364 → `ReleaseHold(source amount)`
+  ask / bid O assets price   orders.go:654 / :701 `CreateAskOrder` / `CreateBidOrder` → `AddHold`
+  ordcancel S id    orders.go:718 `CancelOrder` → `ReleaseHold`
+  fillbids S total ids / fillasks B total ids / settle ask bid
+                    fulfillment.go:43 / :141 / :229 → `closeSettlement` → `closeSettlementOps`
+  crelease A c      commitments.go:152 `ReleaseCommitment` → `ReleaseHold`
+  csettle ins outs  commitments.go:375 `SettleCommitments` → `settleCommitmentsOps`
   spendable X       bank gRPC `SpendableBalances` (+ `SpendableBalanceByDenom` per denom)
   kspend X vb hb    `SpendableCoins` / `LockedCoins` under the two context bypass flags
   inv               `HoldAccountBalancesInvariant`
@@ -28,6 +37,12 @@ The verdict is the property's conclusion evaluated on the implementation's outpu
 `hold ≤ balance` and `spendable = max 0 (bal − hold − unvested)` on every dumped state, a
 successful debit must have been within `bal − hold` of the previous dumped state, a successful
 new hold within the previously reported spendable, a rejected op must leave the dump unchanged.
+An accepted exchange message (several releases / transfers / holds in one transaction) is judged
+step by step on the previously dumped state: every transfer it makes must fit into
+`bal − hold` of that moment (`LockSpec.movesKeepHolds`).  The market of the harness charges no
+fees; `settle` is driven with one ask and one bid of equal assets, `csettle` with one input or one
+output account (the shapes whose transfers do not depend on the settlement arithmetic, which is
+C05's subject) — other shapes are answered `err:rejected` and are not generated.
 -/
 import PvModel.Lock
 import PvModel.LockSpec
@@ -36,8 +51,31 @@ import PvModel.LockSpec
 namespace PvModel.Lock
 open PvModel PvModel.LockSpec
 
+/-- a stored payment (x/exchange payments.go); `tgt = ""` = no target -/
+structure PayRec where
+  src : Addr
+  id : String
+  srcAmt : Coins
+  tgt : Addr
+  tgtAmt : Coins
+
+/-- a stored order of market 1 (no fees: an ask holds its assets, a bid its price) -/
+structure OrderRec where
+  id : Nat
+  isAsk : Bool
+  owner : Addr
+  assets : Denom × Int
+  price : Denom × Int
+
+def OrderRec.holdAmt (o : OrderRec) : Coins := if o.isAsk then [o.assets] else [o.price]
+
 structure DState where
   s : State := {}
+  payments : List PayRec := []
+  orders : List OrderRec := []
+  nextOrder : Nat := 1
+  /-- funds committed to market 1, per account (canonical coins) -/
+  commits : List (Addr × Coins) := []
   accts : List Addr := []
   quarantined : List Addr := []
   /-- quarantine records `(to, from, coins)` -/
@@ -94,7 +132,8 @@ private def parseSnapshot (ent : String) : Snapshot :=
   | name :: rest =>
     let fields := (":".intercalate rest).splitOn ";"
     let get (k : String) : Coins := (kv fields k).map coinsArg |>.getD []
-    { name := name, bal := get "b", hold := get "h", spendable := get "s", unvested := get "u" }
+    { name := name, bal := get "b", hold := get "h", spendable := get "s", unvested := get "u",
+      holdViewsDiffer := (kv fields "hv").isSome }
   | [] => { name := "", bal := [], hold := [], spendable := [], unvested := [] }
 
 def parseDump (s : String) : List Snapshot :=
@@ -158,6 +197,180 @@ private def doSend (ds : DState) (c : Ctx) (src dst : Addr) (amt : Coins) (direc
   let (r, rec) := resolve ds c.quarantineBypass src dst directive
   let recs := if rec then addRecord ds.qrecs dst src amt else ds.qrecs
   finish ds (sendCoins ds.s c src dst amt r) recs
+
+
+/-! ### exchange messages -/
+
+/-- outcome of one restriction call of an exchange transfer (quarantine is bypassed there, so only
+the history's directive matters) -/
+private def dirOutcome (dst : Addr) : Option String → Option Addr
+  | none | some "ok" | some "" => some dst
+  | some "deny" => none
+  | some other => some other
+
+/-- destinations of the successive restriction calls of the transfers -/
+private def callDsts (transfers : List (List (Addr × Coins) × List (Addr × Coins))) : List Addr :=
+  transfers.flatMap fun (ins, outs) =>
+    match ins, outs with
+    | [_], [(t, _)] => [t]
+    | _, _ => (transfersOf ins outs).map (·.1)
+
+private def outcomes (dsts : List Addr) (dirs : List String) : List (Option Addr) :=
+  dsts.zipIdx.map fun (d, i) => dirOutcome d dirs[i]?
+
+private def commitOf (ds : DState) (a : Addr) : Coins := Coins.canon ((ds.commits.lookup a).getD [])
+
+private def setCommit (cm : List (Addr × Coins)) (a : Addr) (cs : Coins) : List (Addr × Coins) :=
+  (cm.filter (·.1 ≠ a)) ++ [(a, Coins.canon cs)]
+
+private def addCommits (ds : DState) (xs : List (Addr × Coins)) : DState :=
+  { ds with commits := xs.foldl (fun cm (a, cs) => setCommit cm a (((cm.lookup a).getD []) ++ cs)) ds.commits }
+
+private def subCommits (ds : DState) (xs : List (Addr × Coins)) : DState :=
+  { ds with commits := xs.foldl (fun cm (a, cs) => setCommit cm a (((cm.lookup a).getD []) ++ Coins.neg cs)) ds.commits }
+
+/-- commitments.go:152 `ReleaseCommitment`: what gets released (`none` = error) -/
+private def toReleaseOf (ds : DState) (a : Addr) (amt : Coins) : Option Coins :=
+  let cur := commitOf ds a
+  if isAnyNegative amt then none
+  else if cur.isEmpty then none
+  else if isZero amt then some cur
+  else if (Coins.denoms amt).any (fun d => decide (Coins.amountOf cur d < Coins.amountOf amt d)) then none
+  else some amt
+
+private def findOrders (ds : DState) (ids : List Nat) (wantAsk : Bool) (notOwner : Addr) : Option (List OrderRec) :=
+  ids.mapM fun i =>
+    match ds.orders.find? (·.id = i) with
+    | some o => if o.isAsk = wantAsk ∧ o.owner ≠ notOwner then some o else none
+    | none => none
+
+private def parseIds (s : String) : Option (List Nat) :=
+  let ids := (splitList s).mapM parseNat?
+  match ids with
+  | some l => if l.isEmpty ∨ !l.Nodup ∨ l.contains 0 then none else some l
+  | none => none
+
+private def dropOrders (ds : DState) (ids : List Nat) : DState :=
+  { ds with orders := ds.orders.filter fun o => !ids.contains o.id }
+
+private def anyBlocked (ds : DState) (outs : List (Addr × Coins)) : Bool := outs.any fun o => isBlocked ds.s o.1
+
+/-- keeper.go:201 `DoTransfer`'s own checks: a 1→1 transfer needs equal coins (:208), no output
+may be a blocked address (:219, :228) -/
+private def transferOk (ds : DState) (t : List (Addr × Coins) × List (Addr × Coins)) : Bool :=
+  !anyBlocked ds t.2 &&
+    match t.1, t.2 with
+    | [(_, a)], [(_, b)] => Coins.canon a == Coins.canon b
+    | _, _ => true
+
+/-- An exchange message as the primitives it runs (Go order) and the bookkeeping done when it
+succeeds; `none` = rejected by the exchange before any primitive runs. -/
+def lowerMsg (ds : DState) (ws : List String) : Option (List Op × (DState → DState)) :=
+  match ws with
+  | "payaccept" :: t :: src :: id :: rest =>
+    match ds.payments.find? (fun p => p.src = src ∧ p.id = id) with
+    | none => none
+    | some p =>
+      if p.tgt ≠ t then none
+      else
+        let dsts := (if isZero p.srcAmt then [] else [t]) ++ (if isZero p.tgtAmt then [] else [src])
+        some (acceptPaymentOps src t p.srcAmt p.tgtAmt (outcomes dsts (directives rest)),
+          fun d => { d with payments := d.payments.filter fun q => !(q.src = src ∧ q.id = id) })
+  | ["payreject", t, src, id] =>
+    match ds.payments.find? (fun p => p.src = src ∧ p.id = id) with
+    | none => none
+    | some p =>
+      if p.tgt = "" ∨ p.tgt ≠ t then none
+      else some ([.releaseHold src p.srcAmt],
+        fun d => { d with payments := d.payments.filter fun q => !(q.src = src ∧ q.id = id) })
+  | ["paycancel", src, id] =>
+    match ds.payments.find? (fun p => p.src = src ∧ p.id = id) with
+    | none => none
+    | some p => some ([.releaseHold src p.srcAmt],
+        fun d => { d with payments := d.payments.filter fun q => !(q.src = src ∧ q.id = id) })
+  | ["ordcancel", signer, id] =>
+    match (parseNat? id).bind fun i => ds.orders.find? (·.id = i) with
+    | none => none
+    | some o =>
+      if signer ≠ o.owner ∧ signer ≠ "ADM" then none
+      else some ([.releaseHold o.owner o.holdAmt], fun d => dropOrders d [o.id])
+  | "fillbids" :: seller :: total :: ids :: rest =>
+    match parseIds ids with
+    | none => none
+    | some ids =>
+    match findOrders ds ids false seller with
+    | none => none
+    | some os =>
+      let total := coinsArg total
+      let prices := os.map fun o => (o.owner, [o.price])
+      let t₁ := ([(seller, total)], normGroups (os.map fun o => (o.owner, [o.assets])))
+      let t₂ := (normGroups prices, [(seller, Coins.canon (os.map (·.price)))])
+      if !isValid total || total.isEmpty || Coins.canon (os.map (·.assets)) ≠ total then none
+      else if !(transferOk ds t₁ && transferOk ds t₂) then none
+      else some (closeSettlementOps prices [t₁, t₂] (outcomes (callDsts [t₁, t₂]) (directives rest)),
+        fun d => dropOrders d ids)
+  | "fillasks" :: buyer :: total :: ids :: rest =>
+    match parseIds ids with
+    | none => none
+    | some ids =>
+    match findOrders ds ids true buyer with
+    | none => none
+    | some os =>
+      let total := coinsArg total
+      let assets := os.map fun o => (o.owner, [o.assets])
+      let t₁ := (normGroups assets, [(buyer, Coins.canon (os.map (·.assets)))])
+      let t₂ := ([(buyer, total)], normGroups (os.map fun o => (o.owner, [o.price])))
+      if total.length ≠ 1 || !isValid total || Coins.canon (os.map (·.price)) ≠ total then none
+      else if !(transferOk ds t₁ && transferOk ds t₂) then none
+      else some (closeSettlementOps assets [t₁, t₂] (outcomes (callDsts [t₁, t₂]) (directives rest)),
+        fun d => dropOrders d ids)
+  | "settle" :: a :: b :: rest =>
+    match (parseNat? a).bind (fun i => ds.orders.find? (·.id = i)), (parseNat? b).bind (fun i => ds.orders.find? (·.id = i)) with
+    | some ao, some bo =>
+      if !ao.isAsk || bo.isAsk then none
+      else if ao.assets ≠ bo.assets || ao.price.1 ≠ bo.price.1 || bo.price.2 < ao.price.2 then none
+      else
+        let t₁ := ([(ao.owner, [ao.assets])], [(bo.owner, [ao.assets])])
+        let t₂ := ([(bo.owner, [bo.price])], [(ao.owner, [bo.price])])
+        if !(transferOk ds t₁ && transferOk ds t₂) then none
+        else some (closeSettlementOps [(ao.owner, ao.holdAmt), (bo.owner, bo.holdAmt)] [t₁, t₂]
+            (outcomes (callDsts [t₁, t₂]) (directives rest)),
+          fun d => dropOrders d [ao.id, bo.id])
+    | _, _ => none
+  | ["crelease", a, cs] =>
+    match toReleaseOf ds a (coinsArg cs) with
+    | none => none
+    | some rel => some ([.releaseHold a rel], fun d => subCommits d [(a, rel)])
+  | "csettle" :: ins :: outs :: rest =>
+    let ins := normGroups (parseParts ins)
+    let outs := normGroups (parseParts outs)
+    let good := fun (xs : List (Addr × Coins)) => xs.all fun p => isValid p.2 && !p.2.isEmpty
+    if ins.isEmpty || outs.isEmpty || !(ins.length = 1 || outs.length = 1) then none
+    else if !(good (parseParts (ws.getD 1 "")) && good (parseParts (ws.getD 2 ""))) then none
+    else if Coins.canon (ins.flatMap (·.2)) ≠ Coins.canon (outs.flatMap (·.2)) then none
+    else if !transferOk ds (ins, outs) then none
+    else match ins.mapM fun p => (toReleaseOf ds p.1 p.2).map fun r => (p.1, r) with
+    | none => none
+    | some rels =>
+      some (settleCommitmentsOps rels outs (outcomes (callDsts [(ins, outs)]) (directives rest)),
+        fun d => addCommits (subCommits d rels) outs)
+  | _ => none
+
+def isMsgOp (op : String) : Bool :=
+  ["payaccept", "payreject", "paycancel", "ordcancel", "fillbids", "fillasks", "settle", "crelease", "csettle"].contains op
+
+/-- a new order: orders.go:654 / :701 (the ask's assets and price must be positive coins of
+different denoms; the hold is placed last, so a refused hold rejects the whole message) -/
+private def createOrder (ds : DState) (isAsk : Bool) (owner : Addr) (assets price : String) : DState × String :=
+  match parseCoin? assets, parseCoin? price with
+  | some a, some p =>
+    if a.2 ≤ 0 || p.2 ≤ 0 || a.1 = p.1 then (ds, "err:rejected")
+    else
+      let o : OrderRec := { id := ds.nextOrder, isAsk := isAsk, owner := owner, assets := a, price := p }
+      match addHold ds.s {} owner o.holdAmt with
+      | .ok s' => ({ ds with s := s', orders := ds.orders ++ [o], nextOrder := ds.nextOrder + 1 }, s!"ok {o.id}")
+      | .error _ => (ds, "err:rejected")
+  | _, _ => (ds, "err:rejected")
 
 def execOp (ds : DState) (ws : List String) : DState × String :=
   match ws with
@@ -228,8 +441,23 @@ def execOp (ds : DState) (ws : List String) : DState × String :=
     else doSend ds { quarantineBypass := decide (t = "ADM") } "MKT" t (coinsArg cs) none
   | ["hold", a, cs] => finish ds (addHold ds.s {} a (coinsArg cs))
   -- exchange commitments.go:100 `addCommitment` / payments.go:205 `CreatePayment` → `AddHold`
-  | ["commit", a, cs] => finish ds (addHold ds.s {} a (coinsArg cs))
-  | ["pay", a, cs, _] => finish ds (addHold ds.s {} a (coinsArg cs))
+  | ["commit", a, cs] =>
+    match addHold ds.s {} a (coinsArg cs) with
+    | .ok s' => (addCommits { ds with s := s' } [(a, coinsArg cs)], "ok")
+    | .error e => (ds, e.toString)
+  -- payments.go:205 `CreatePayment`: `Payment.Validate`, the (source, external id) key must be new
+  -- (:131), then `AddHold(source, SourceAmount)`
+  | "pay" :: a :: cs :: id :: rest =>
+    let srcAmt := coinsArg cs
+    let tgt := (kv rest "tgt").getD ""
+    let tgtAmt := ((kv rest "tamt").map coinsArg).getD []
+    if !isValid srcAmt || !isValid tgtAmt || (srcAmt.isEmpty && tgtAmt.isEmpty) then (ds, "err:other")
+    else if ds.payments.any (fun p => p.src = a ∧ p.id = id) then (ds, "err:other")
+    else match addHold ds.s {} a srcAmt with
+      | .ok s' => ({ ds with s := s', payments := ds.payments ++ [{ src := a, id := id, srcAmt := srcAmt, tgt := tgt, tgtAmt := tgtAmt }] }, "ok")
+      | .error e => (ds, e.toString)
+  | ["ask", o, assets, price] => createOrder ds true o assets price
+  | ["bid", o, assets, price] => createOrder ds false o assets price
   | ["release", a, cs] => finish ds (releaseHold ds.s a (coinsArg cs))
   | ["qaccept", t, f] =>
     match ds.qrecs.find? (fun r => r.1 = t ∧ r.2.1 = f) with
@@ -251,6 +479,15 @@ def execOp (ds : DState) (ws : List String) : DState × String :=
   | ["inv"] =>
     let bad := ds.s.holds.any fun e => !holdInvariantAt ds.s e.addr e.denom
     (ds, if bad then "broken" else "ok")
+  | op :: _ =>
+    if isMsgOp op then
+      match lowerMsg ds ws with
+      | none => (ds, "err:rejected")
+      | some (ops, onOk) =>
+        match applyAll ds.s ops with
+        | .ok s' => (onOk { ds with s := s' }, "ok")
+        | .error _ => (ds, "err:rejected")
+    else (ds, "bad-op")
   | _ => (ds, "bad-op")
 
 /-! ### the property checker, on the implementation's output -/
@@ -276,6 +513,20 @@ def debits (ws : List String) (impl : String) : List (Addr × Coins) :=
     | _ => []
   | _ => []
 
+/-- what an accepted message did, step by step (for `LockSpec.movesKeepHolds`) -/
+def movesOf (ops : List Op) : List Move :=
+  ops.flatMap fun op =>
+    match op with
+    | .releaseHold a cs => [Move.release a cs]
+    | .addHold _ a cs => [Move.hold a cs]
+    | .send _ src dst amt r => [Move.debit src amt, Move.credit (r.getD dst) amt]
+    | .inputOutput _ ins outs rs =>
+      (normGroups ins).map (fun p => Move.debit p.1 p.2) ++
+        (match applyRestrictions (transfersOf ins outs) rs with
+         | .ok resolved => resolved.map fun p => Move.credit p.1 p.2
+         | .error _ => [])
+    | _ => []
+
 private def groupDebits (xs : List (Addr × Coins)) : List (Addr × Coins) :=
   (groupByAddr xs).map fun p => (p.1, Coins.canon p.2)
 
@@ -296,6 +547,12 @@ def verdict (ds : DState) (ws : List String) (impl : String) : String :=
       let want := showC (posCoins ((Coins.denoms sn.bal).map fun d =>
         (d, specSpendable (Coins.amountOf sn.bal d) (Coins.amountOf sn.hold d) (Coins.amountOf sn.unvested d))))
       if impl = s!"ok {want} {want}" then "ok" else "fail:spendable_query_not_formula"
+  | "ask" :: a :: cs :: _ | "bid" :: a :: _ :: cs :: _ =>
+    if r ≠ "ok" then "ok" else
+    match snapOf ds a with
+    | none => "-"
+    | some sn =>
+      if holdWithinSpendable sn (Coins.canon (coinsArg cs)) then "ok" else "fail:hold_exceeds_spendable"
   | "hold" :: a :: cs :: _ | "commit" :: a :: cs :: _ | "pay" :: a :: cs :: _ =>
     -- `AddHold` is only ever called with a valid `sdk.Coins` (sorted, distinct denoms, positive):
     -- anything else cannot come from a transaction and is out of the property's scope
@@ -306,6 +563,13 @@ def verdict (ds : DState) (ws : List String) (impl : String) : String :=
     | some sn =>
       if holdWithinSpendable sn (Coins.canon (coinsArg cs)) then "ok" else "fail:hold_exceeds_spendable"
   | op :: _ =>
+    if isMsgOp op then
+      if r ≠ "ok" then "ok"
+      else match ds.lastDump, lowerMsg ds ws with
+        | some d, some (ops, _) =>
+          if movesKeepHolds (parseDump d) (movesOf ops) then "ok" else s!"fail:held_funds_left:{op}"
+        | _, _ => "-"
+    else
     let dbs := groupDebits (debits ws impl)
     if dbs.isEmpty then "-"
     else if r ≠ "ok" then "ok"
